@@ -127,6 +127,16 @@ func (mn *MatchNode) Match(database, branch, user, host string) []MatchResult {
 	// The subset may contain partial matches (which do not count), so we filter for only complete matches
 	results := make([]MatchResult, 0, len(matchSubset))
 	for _, node := range matchSubset {
+		if len(node.SortOrders) == 0 {
+			// A trailing any-match that was split off into a child (because a shorter expression ends at this
+			// node) still matches the empty remainder, exactly as it does below when it is part of this node.
+			if child, ok := node.Children[anyMatch]; ok && child.Data != nil && len(child.SortOrders) == 1 {
+				results = append(results, MatchResult{
+					MatchNodeData: *child.Data,
+					Length:        node.Length + 1,
+				})
+			}
+		}
 		if node.Data != nil {
 			if len(node.SortOrders) == 0 {
 				results = append(results, MatchResult{
